@@ -50,10 +50,27 @@ void enumerate(Ctx& ctx)
 	recCore(0);
 }
 
-void checkMap(Ctx& ctx, const std::vector<int>& cfg)
+void checkMapR(Ctx& ctx, const ref::RMap& r, const std::string& key);
+void checkMap(Ctx& ctx, const std::vector<int>& cfg) { checkMapR(ctx, mapc::makeMap(cfg), mapc::describe(cfg)); }
+
+// a map of the size the game ships: 512 x 256 tiles, 512 tileset source slots (most of them empty), 2012 mappings,
+// 5 terrain types, 48 tile groups with names of every length up to 47
+void stockSizeMap(Ctx& ctx)
 {
-	ref::RMap r = mapc::makeMap(cfg);
-	std::string key = mapc::describe(cfg);
+	ref::RMap m;
+	m.lgWidth = 9; m.height = 256; m.fillTiles(0);
+	m.clip[0] = 32; m.clip[1] = 0; m.clip[2] = 479; m.clip[3] = 254;
+	for (int i = 0; i < 512; ++i) { if (i % 37 == 3 || i < 13) m.sources.push_back({ "well" + std::to_string(1000 + i), uint32_t(1 + i % 200) }); else m.sources.push_back({ "", 0 }); }
+	for (int i = 0; i < 2012; ++i) m.mappings.push_back({ uint16_t(i % 13), uint16_t(i % 200), uint16_t(i % 5), uint16_t(i * 3) });
+	for (int i = 0; i < 5; ++i) { std::array<uint8_t, 264> t; for (int k = 0; k < 264; ++k) t[k] = uint8_t(k * 5 + i * 31 + 2); m.terrain.push_back(t); }
+	for (int g = 0; g < 48; ++g) { ref::RGroup G; G.w = uint32_t(1 + g % 7); G.h = uint32_t(1 + (g * 3) % 5); G.name = std::string(std::size_t(g), char('a' + g % 26)); for (uint32_t i = 0; i < G.w * G.h; ++i) G.idx.push_back(i * 11 + uint32_t(g)); m.groups.push_back(G); }
+	m.undocumented = uint32_t(m.groups.size() - 1);
+	checkMapR(ctx, m, "stock-size map (512x256, 512 source slots, 2012 mappings, 5 terrain types, 48 groups)");
+	ctx.count("accept/stock-size-map");
+}
+
+void checkMapR(Ctx& ctx, const ref::RMap& r, const std::string& key)
+{
 	ctx.sub(key);
 	std::size_t consumed = 0;
 	auto bytes = ref::encodeMap(r, nullptr, &consumed);
@@ -223,6 +240,7 @@ void runCase(std::size_t i, Ctx& ctx)
 		return;
 	}
 	std::size_t k = i - nChunks();
+	if (k == 6) { stockSizeMap(ctx); return; }
 	std::vector<int> cfg(mapc::kDims, 0);
 	if (k & 1) cfg[0] = 4;                 // 64 wide
 	if (k & 2) cfg[6] = 5;                 // sources with empty entries
@@ -243,7 +261,7 @@ int main(int argc, char** argv)
 	mc::CheckDef def;
 	def.id = "C06";
 	def.init = enumerate;
-	def.ncases = [](Ctx&) { return nChunks() + 6; };
+	def.ncases = [](Ctx&) { return nChunks() + 7; };
 	def.run = runCase;
 	def.caseTimeoutS = 900;
 	return mc::Main(argc, argv, def);
